@@ -1,8 +1,8 @@
 (* Format.v — the fragment of `str.format` (positional arguments only, all of them `str`) that
    parse_equation's templates can reach (fsic/parser.py:618-626).  Definitions only.
 
-   Since commit 6fcad37 every failure of `template.format(...)` (AttributeError, IndexError, KeyError,
-   TypeError, ValueError) becomes ParserError, so the model only has to decide success / failure and, on
+   Since commits 6fcad37 / 51af71a every failure of `template.format(...)` (AttributeError, IndexError, KeyError,
+   MemoryError, OverflowError, TypeError, ValueError) becomes ParserError, so the model only has to decide success / failure and, on
    success, the text:
      {{  }}          escapes
      {}              automatic field: next argument (IndexError when they run out; ValueError after a manual field)
